@@ -52,6 +52,8 @@ def register(M):
                 f = v.cls.lookup('__len__')
                 return interp.call_function(f, [v], {}, node)
             except KeyError:
+                if v.tuple_items() is not None:
+                    return len(v.tuple_items())
                 if M.is_dict_subclass(v.cls) and hasattr(v, 'dict_data'):
                     return len(v.dict_data)
         raise AbsRaise(ExcVal('TypeError', (f'object of type {type(v).__name__} has no len()',)), node)
@@ -88,6 +90,10 @@ def register(M):
     def _minmax(which):
         def f(interp, args, kw, node):
             items = args if len(args) > 1 else interp.iterate(args[0], node)
+            if kw.get('key') is not None:
+                raise AnalysisError(f'{which}(key=) not modelled', node)
+            if not items and 'default' in kw and len(args) == 1:
+                return kw['default']
             if not items:
                 raise AbsRaise(ExcVal('ValueError', (f'{which}() arg is an empty sequence',)), node)
             vals = [conc_num(x, node) for x in items]
@@ -317,7 +323,26 @@ def register(M):
     @ext('builtins.next')
     def _next(interp, args, kw, node):
         it = args[0]
+        from .interp import GenList
+        if isinstance(it, GenList):
+            if it.pos < len(it):
+                it.pos += 1
+                return it[it.pos - 1]
+            if len(args) > 1:
+                return args[1]
+            raise AbsRaise(ExcVal('StopIteration'), node)
+        if isinstance(it, GenResult):
+            # a generator function's result (its items were produced eagerly): consumed from the front
+            pos = getattr(it, 'pos', 0)
+            if pos < len(it.items):
+                it.pos = pos + 1
+                return it.items[pos]
+            if len(args) > 1:
+                return args[1]
+            raise AbsRaise(ExcVal('StopIteration'), node)
         if not isinstance(it, IterVal):
+            if not isinstance(it, (list, tuple, dict, set, str, Vec)):
+                raise AnalysisError(f'next() on {type(it).__name__} not modelled', node)
             raise AbsRaise(ExcVal('TypeError', (f"'{type(it).__name__}' object is not an iterator",)), node)
         if it.pos < len(it.items):
             it.pos += 1
